@@ -1,15 +1,1326 @@
-//! stub
+//! Properties that run the solvers: C02..C10, C12
+use crate::core::*;
+use crate::gen::*;
+use crate::lib_props::{case_multinomial, case_prof, case_tree, prof_hash, prof_json};
 use crate::Ctx;
-use serde_json::Value;
-pub fn case_solve(_ctx: &mut Ctx, _case: &Value) {}
-pub fn case_meta(_ctx: &mut Ctx, _case: &Value) {}
-pub fn c02(_ctx: &mut Ctx) -> String { String::new() }
-pub fn c03(_ctx: &mut Ctx) -> String { String::new() }
-pub fn c04(_ctx: &mut Ctx) -> String { String::new() }
-pub fn c05(_ctx: &mut Ctx) -> String { String::new() }
-pub fn c06(_ctx: &mut Ctx) -> String { String::new() }
-pub fn c07(_ctx: &mut Ctx) -> String { String::new() }
-pub fn c08(_ctx: &mut Ctx) -> String { String::new() }
-pub fn c09(_ctx: &mut Ctx) -> String { String::new() }
-pub fn c10(_ctx: &mut Ctx) -> String { String::new() }
-pub fn c12(_ctx: &mut Ctx) -> String { String::new() }
+use cfr::verif::DrawRecord;
+use cfr::{PlayerNum, RegretParams, SolveError, SolveMethod};
+use serde_json::{json, Value};
+use std::collections::{BTreeMap, BTreeSet};
+use std::panic::{catch_unwind, AssertUnwindSafe};
+
+#[derive(Clone, Copy, Debug, PartialEq)]
+pub struct Params {
+    pub pos: f64,
+    pub neg: f64,
+    pub strat: f64,
+    pub nopos: f64,
+}
+
+pub const INF: f64 = f64::INFINITY;
+
+impl Params {
+    pub fn vanilla() -> Self {
+        Params { pos: INF, neg: INF, strat: 0.0, nopos: 0.0 }
+    }
+    pub fn lcfr() -> Self {
+        Params { pos: 1.0, neg: 1.0, strat: 1.0, nopos: INF }
+    }
+    pub fn cfr_plus() -> Self {
+        Params { pos: INF, neg: -INF, strat: 2.0, nopos: INF }
+    }
+    pub fn dcfr() -> Self {
+        Params { pos: 1.5, neg: 0.0, strat: 2.0, nopos: INF }
+    }
+    pub fn dcfr_prune() -> Self {
+        Params { pos: 1.5, neg: 0.5, strat: 2.0, nopos: INF }
+    }
+    pub fn presets() -> [(&'static str, Params); 5] {
+        [
+            ("vanilla", Self::vanilla()),
+            ("lcfr", Self::lcfr()),
+            ("cfr_plus", Self::cfr_plus()),
+            ("dcfr", Self::dcfr()),
+            ("dcfr_prune", Self::dcfr_prune()),
+        ]
+    }
+    pub fn to_lib(&self) -> RegretParams {
+        RegretParams::new(self.pos, self.neg, self.strat, self.nopos)
+    }
+    pub fn ser(&self) -> String {
+        format!("{} {} {:016x} {}", ext(self.pos), ext(self.neg), self.strat.to_bits(), ext(self.nopos))
+    }
+    pub fn json(&self) -> Value {
+        json!([fjson(self.pos), fjson(self.neg), fjson(self.strat), fjson(self.nopos)])
+    }
+    pub fn from_json(v: &Value) -> Params {
+        Params {
+            pos: fparse(&v[0]).unwrap_or(INF),
+            neg: fparse(&v[1]).unwrap_or(INF),
+            strat: fparse(&v[2]).unwrap_or(0.0),
+            nopos: fparse(&v[3]).unwrap_or(0.0),
+        }
+    }
+    pub fn show(&self) -> String {
+        format!("({}, {}, {}, {})", self.pos, self.neg, self.strat, self.nopos)
+    }
+    /// parameter tuples beyond the presets
+    pub fn random(rng: &mut Rng) -> Params {
+        let e = [-INF, -1e3, -1.5, -1.0, 0.0, 0.5, 1.0, 1.5, 2.0, 1e3, INF];
+        let w = [-INF, -2.0, -0.5, 0.0, 0.5, 1.0, 3.0, INF];
+        Params {
+            pos: *rng.pick(&e),
+            neg: *rng.pick(&e),
+            strat: *rng.pick(&[0.0, 0.5, 1.0, 2.0, 3.0]),
+            nopos: *rng.pick(&w),
+        }
+    }
+    pub fn pick(rng: &mut Rng) -> (String, Params) {
+        if rng.chance(0.65) {
+            let (n, p) = *rng.pick(&Self::presets());
+            (n.to_string(), p)
+        } else {
+            let p = Self::random(rng);
+            ("custom".to_string(), p)
+        }
+    }
+}
+
+fn ext(x: f64) -> String {
+    if x == INF {
+        "+inf".to_string()
+    } else if x == -INF {
+        "-inf".to_string()
+    } else {
+        format!("{:016x}", x.to_bits())
+    }
+}
+
+fn thr_ser(x: f64) -> String {
+    if x.is_nan() {
+        "nan".to_string()
+    } else {
+        ext(x)
+    }
+}
+
+pub fn method_of(m: &str) -> SolveMethod {
+    match m {
+        "F" => SolveMethod::Full,
+        "S" => SolveMethod::Sampled,
+        _ => SolveMethod::External,
+    }
+}
+
+#[derive(Clone, Debug)]
+pub struct Cfg {
+    pub method: String,
+    pub params: Params,
+    pub iters: u64,
+    pub thr: f64,
+    pub threads: usize,
+    pub target: Option<usize>,
+    pub seed: u64,
+}
+
+impl Cfg {
+    pub fn json(&self) -> Value {
+        json!({"method": self.method, "params": self.params.json(), "params_shown": self.params.show(),
+               "T": self.iters, "thr": fjson(self.thr), "thr_shown": format!("{}", self.thr),
+               "threads": self.threads, "target": self.target, "seed": self.seed})
+    }
+    pub fn from_json(v: &Value) -> Cfg {
+        Cfg {
+            method: v["method"].as_str().unwrap_or("F").to_string(),
+            params: Params::from_json(&v["params"]),
+            iters: v["T"].as_u64().unwrap_or(1),
+            thr: fparse(&v["thr"]).unwrap_or(0.0),
+            threads: v["threads"].as_u64().unwrap_or(1) as usize,
+            target: v["target"].as_u64().map(|x| x as usize),
+            seed: v["seed"].as_u64().unwrap_or(0),
+        }
+    }
+    pub fn hash(&self) -> u64 {
+        let s = format!("{:?}", self);
+        s.bytes().fold(0xcbf29ce484222325u64, |h, b| (h ^ b as u64).wrapping_mul(0x100000001b3))
+    }
+}
+
+#[derive(Clone, Debug)]
+pub struct Res {
+    pub named: [Named; 2],
+    pub bounds: [f64; 2],
+    pub total: f64,
+    pub log: Vec<DrawRecord>,
+}
+
+#[derive(Clone, Debug)]
+pub enum Outcome {
+    Ok(Res),
+    Err(String),
+    Panic(String),
+}
+
+/// run the library under the draw hook
+pub fn run_lib(g: &G, c: &Cfg) -> Outcome {
+    let seed = c.seed;
+    cfr::verif::set_observe(false);
+    cfr::verif::set_draw_hook(Some(Box::new(move |kind, id, pass, ws| draw_hash(seed, kind, id, pass, ws))));
+    let _ = cfr::verif::take_log();
+    let r = catch_unwind(AssertUnwindSafe(|| {
+        let params = c.params.to_lib();
+        let res = match c.target {
+            Some(t) if c.threads != 1 => {
+                g.verif_solve_with_target(method_of(&c.method), c.iters, c.thr, c.threads, t, Some(params))
+            }
+            _ => g.solve(method_of(&c.method), c.iters, c.thr, c.threads, Some(params)),
+        };
+        match res {
+            Ok((s, b)) => Ok((
+                drain_named(&s),
+                [b.player_regret_bound(PlayerNum::One), b.player_regret_bound(PlayerNum::Two)],
+                b.regret_bound(),
+            )),
+            Err(e) => Err(match e {
+                SolveError::ThreadOverflow => "ThreadOverflow".to_string(),
+                SolveError::ThreadSpawnError => "ThreadSpawnError".to_string(),
+                _ => "OtherError".to_string(),
+            }),
+        }
+    }));
+    cfr::verif::set_draw_hook(None);
+    let log = cfr::verif::take_log();
+    match r {
+        Ok(Ok((named, bounds, total))) => Outcome::Ok(Res { named, bounds, total, log }),
+        Ok(Err(e)) => Outcome::Err(e),
+        Err(p) => Outcome::Panic(
+            p.downcast_ref::<String>()
+                .cloned()
+                .or_else(|| p.downcast_ref::<&str>().map(|s| s.to_string()))
+                .unwrap_or_else(|| "panic".to_string()),
+        ),
+    }
+}
+
+pub struct ModelRes {
+    pub iters: usize,
+    pub bounds: [f64; 2],
+    pub full: [Vec<(u32, Vec<(u32, f64)>)>; 2],
+    pub log: Vec<(u8, usize, u64, usize, Vec<f64>)>,
+}
+
+fn solve_req(cmd: &str, t: &T, c: &Cfg, multi: Option<usize>) -> String {
+    let mut s = format!("{} ", cmd);
+    t.ser(&mut s);
+    s.push_str(&format!(" {} {} {} {} {}", c.method, c.params.ser(), c.iters, thr_ser(c.thr), c.seed));
+    if cmd == "solve" {
+        match multi {
+            None => s.push_str(" single"),
+            Some(tg) => s.push_str(&format!(" multi {}", tg)),
+        }
+    }
+    s
+}
+
+pub fn run_model(ctx: &mut Ctx, t: &T, c: &Cfg, multi: Option<usize>) -> Result<ModelRes, String> {
+    let resp = ctx.model.ask(&solve_req("solve", t, c, multi));
+    let body = resp.strip_prefix("ok ").ok_or_else(|| resp.clone())?;
+    let mut tk = Toks::new(body);
+    let iters = tk.nat();
+    let b1 = tk.f();
+    let b2 = tk.f();
+    let f1 = tk.full_named();
+    let f2 = tk.full_named();
+    if tk.tok() != "L" {
+        return Err(format!("malformed model answer {:?}", &resp[..resp.len().min(200)]));
+    }
+    let n = tk.nat();
+    let mut log = Vec::new();
+    for _ in 0..n {
+        let kind = tk.nat() as u8;
+        let id = tk.nat();
+        let pass = tk.nat() as u64;
+        let result = tk.nat();
+        let k = tk.nat();
+        let ws = (0..k).map(|_| tk.f()).collect();
+        log.push((kind, id, pass, result, ws));
+    }
+    Ok(ModelRes { iters, bounds: [b1, b2], full: [f1, f2], log })
+}
+
+/// relative margin of the closest discontinuous decision on the model's single-threaded trajectory
+pub fn model_margin(ctx: &mut Ctx, t: &T, c: &Cfg) -> f64 {
+    let resp = ctx.model.ask(&solve_req("margins", t, c, None));
+    match resp.strip_prefix("ok ") {
+        Some(b) => Toks::new(b).f(),
+        None => 0.0,
+    }
+}
+
+const ILL: f64 = 1e-6;
+
+fn bounds_close(a: &[f64; 2], b: &[f64; 2], tol: f64) -> bool {
+    close_tol(a[0], b[0], tol) && close_tol(a[1], b[1], tol)
+}
+
+/// library result against the model's result for the same configuration
+fn compare_with_model(lib: &Res, m: &ModelRes, sc: f64) -> Result<(), String> {
+    if !bounds_close(&lib.bounds, &m.bounds, 1e-9 * sc.max(1.0)) {
+        return Err(format!("bounds: library {:?}, model {:?}", lib.bounds, m.bounds));
+    }
+    for p in 0..2 {
+        named_matches_full(&lib.named[p], &m.full[p], 1e-8).map_err(|e| format!("player {} strategy: {}", p + 1, e))?;
+    }
+    Ok(())
+}
+
+type LogMap = BTreeMap<(u8, usize, u64), (usize, Vec<f64>)>;
+
+fn lib_log_map(log: &[DrawRecord]) -> Result<LogMap, String> {
+    let mut m = LogMap::new();
+    for r in log {
+        if m.insert((r.kind, r.id, r.pass), (r.result, r.weights.clone())).is_some() {
+            return Err(format!("two draws for (kind {}, infoset {}, pass {})", r.kind, r.id, r.pass));
+        }
+    }
+    Ok(m)
+}
+
+fn model_log_map(log: &[(u8, usize, u64, usize, Vec<f64>)]) -> LogMap {
+    log.iter().map(|r| ((r.0, r.1, r.2), (r.3, r.4.clone()))).collect()
+}
+
+fn logs_agree(a: &LogMap, b: &LogMap) -> Result<(), String> {
+    if a.len() != b.len() {
+        let ka: BTreeSet<_> = a.keys().collect();
+        let kb: BTreeSet<_> = b.keys().collect();
+        let d: Vec<_> = ka.symmetric_difference(&kb).take(4).collect();
+        return Err(format!("{} draws vs {} draws; keys in one only: {:?}", a.len(), b.len(), d));
+    }
+    for (k, (r, ws)) in a {
+        match b.get(k) {
+            None => return Err(format!("draw {:?} missing on one side", k)),
+            Some((r2, ws2)) => {
+                if ws.len() != ws2.len() || ws.iter().zip(ws2.iter()).any(|(x, y)| !close_tol(*x, *y, 1e-8)) {
+                    return Err(format!("draw {:?}: weights {:?} vs {:?}", k, ws, ws2));
+                }
+                if r != r2 {
+                    return Err(format!("draw {:?}: index {} vs {}", k, r, r2));
+                }
+            }
+        }
+    }
+    Ok(())
+}
+
+fn all_infosets_listed(t: &T, named: &[Named; 2]) -> Result<(), String> {
+    let infos = infosets_of(t);
+    for p in 0..2 {
+        let listed: Vec<u32> = named[p].iter().map(|x| x.0).collect();
+        let set: BTreeSet<u32> = listed.iter().cloned().collect();
+        let want: BTreeSet<u32> = infos[p].keys().cloned().collect();
+        if set.len() != listed.len() || set != want {
+            return Err(format!("player {} infosets listed {:?}, expected {:?}", p + 1, listed, want));
+        }
+    }
+    Ok(())
+}
+
+fn true_regret(g: &G, named: &[Named; 2]) -> Result<(f64, [f64; 2], f64), String> {
+    let s = g.from_named(named.clone()).map_err(|e| format!("returned profile cannot be imported: {:?}", e))?;
+    let i = s.get_info();
+    Ok((
+        i.regret(),
+        [i.player_regret(PlayerNum::One), i.player_regret(PlayerNum::Two)],
+        i.player_utility(PlayerNum::One),
+    ))
+}
+
+// ---------------------------------------------------------------------------------------------
+// the generic solve case: which assertions apply is listed in the case
+
+pub fn case_solve(ctx: &mut Ctx, case: &Value) {
+    let t = case_tree(case);
+    let cfg = Cfg::from_json(&case["cfg"]);
+    let asserts: Vec<String> = case["asserts"]
+        .as_array()
+        .map(|a| a.iter().filter_map(|x| x.as_str().map(|s| s.to_string())).collect())
+        .unwrap_or_default();
+    let has = |a: &str| asserts.iter().any(|x| x == a);
+    let g = match build(&t) {
+        Ok(g) => g,
+        Err(e) => return ctx.fail_corr(case, format!("tree rejected: {:?}", e)),
+    };
+    let (n_info, a_max, d_range) = stats_of(&t);
+    let sc = {
+        let mut v = Vec::new();
+        t.payoffs(&mut v);
+        v.iter().fold(1.0f64, |a, b| a.max(b.abs()))
+    };
+    let out = run_lib(&g, &cfg);
+    ctx.count(mix64(t.hash() ^ cfg.hash()), n_info >= 2 && cfg.iters >= 1);
+    ctx.stat(&format!("method_{}", cfg.method));
+    ctx.stat(&format!("threads_{}", if cfg.threads > 16 { "huge".to_string() } else { cfg.threads.to_string() }));
+
+    // --- C05: totality and well-formedness
+    if has("wellformed") {
+        let over = cfg.threads != 1 && cfg.threads != 0 && cfg.threads.checked_mul(3).is_none();
+        match &out {
+            Outcome::Panic(m) => ctx.fail_prop(case, format!("solve panicked: {}", m)),
+            Outcome::Err(e) => {
+                if cfg.threads == 1 {
+                    ctx.fail_prop(case, format!("one thread returned the error {}", e));
+                } else if over && e != "ThreadOverflow" {
+                    ctx.fail_prop(case, format!("3 x threads overflows but the error is {}", e));
+                } else if !over && e != "ThreadSpawnError" {
+                    ctx.fail_prop(case, format!("unexpected error {}", e));
+                } else if !over && cfg.threads <= 64 {
+                    ctx.fail_prop(case, format!("{} threads could not be spawned", cfg.threads));
+                }
+                ctx.stat(&format!("error_{}", e));
+            }
+            Outcome::Ok(r) => {
+                if over {
+                    ctx.fail_prop(case, "3 x threads overflows but solve returned normally".to_string());
+                }
+                if let Err(e) = all_infosets_listed(&t, &r.named) {
+                    ctx.fail_prop(case, e);
+                }
+                for p in 0..2 {
+                    if let Err(e) = named_valid(&r.named[p]) {
+                        ctx.fail_prop(case, format!("player {} returned strategy: {}", p + 1, e));
+                    }
+                    let b = r.bounds[p];
+                    if b.is_nan() || b < 0.0 {
+                        ctx.fail_prop(case, format!("player {} bound is {:e}", p + 1, b));
+                    }
+                    if (b == INF) != (cfg.iters == 0) {
+                        ctx.fail_prop(case, format!("player {} bound is {:e} after a budget of {} iterations", p + 1, b, cfg.iters));
+                    }
+                }
+            }
+        }
+    }
+    let res = match &out {
+        Outcome::Ok(r) => r.clone(),
+        Outcome::Err(e) => {
+            if !has("wellformed") {
+                ctx.fail_prop(case, format!("solve returned the error {}", e));
+            }
+            return;
+        }
+        Outcome::Panic(m) => {
+            if !has("wellformed") {
+                ctx.fail_prop(case, format!("solve panicked: {}", m));
+            }
+            return;
+        }
+    };
+
+    // --- C02: the bound dominates the true regret (Full, vanilla)
+    if has("bound") {
+        match true_regret(&g, &res.named) {
+            Err(e) => ctx.fail_prop(case, e),
+            Ok((reg, _, _)) => {
+                if res.bounds[0] < 0.0 || res.bounds[1] < 0.0 || res.total != f64::max(res.bounds[0], res.bounds[1]) {
+                    ctx.fail_prop(case, format!("bounds {:?} total {:e}", res.bounds, res.total));
+                }
+                if !(reg <= res.total + 1e-9 * sc) {
+                    ctx.fail_prop(case, format!("true regret {:e} exceeds the returned bound {:e}", reg, res.total));
+                }
+                if cfg.thr > 0.0 && res.total < cfg.thr && !(reg < cfg.thr + 1e-9 * sc) {
+                    ctx.fail_prop(case, format!("stopped below the threshold {:e} but the true regret is {:e}", cfg.thr, reg));
+                }
+            }
+        }
+    }
+
+    // --- C03: the CFR rate
+    if has("rate") && cfg.iters >= 1 {
+        let tt = cfg.iters as f64;
+        let (nn, aa) = (n_info as f64, a_max as f64);
+        if cfg.params == Params::vanilla() {
+            let env = 2.0 * d_range * nn * aa.sqrt() / tt.sqrt();
+            for p in 0..2 {
+                if !(res.bounds[p] <= env + 1e-9 * sc) {
+                    ctx.fail_prop(case, format!("player {} bound {:e} above 2 D N sqrt(A)/sqrt(T) = {:e}", p + 1, res.bounds[p], env));
+                }
+            }
+        }
+        let env = 6.0 * d_range * nn * (aa.sqrt() + 1.0 / tt.sqrt()) / tt.sqrt();
+        match true_regret(&g, &res.named) {
+            Err(e) => ctx.fail_prop(case, e),
+            Ok((reg, _, _)) => {
+                if !(reg <= env + 1e-9 * sc) {
+                    ctx.fail_prop(case, format!("true regret {:e} above 6 D N (sqrt(A)+1/sqrt(T))/sqrt(T) = {:e}", reg, env));
+                }
+                if let Some(rel) = case.get("collect").and_then(|c| c.as_str()) {
+                    // relative regret in parts per million, for the collection statistics
+                    let ppm = if d_range > 0.0 { (reg / d_range * 1e6) as u64 } else { 0 };
+                    ctx.statn(&format!("sum_ppm_{}", rel), ppm);
+                    ctx.stat(&format!("n_{}", rel));
+                }
+            }
+        }
+    }
+
+    // --- C04: sampled convergence envelope
+    if has("sampled_rate") && cfg.iters >= 1 {
+        let tt = cfg.iters as f64;
+        let env = 3.0 * d_range * (n_info as f64) * (a_max as f64).sqrt() / tt.sqrt();
+        match true_regret(&g, &res.named) {
+            Err(e) => ctx.fail_prop(case, e),
+            Ok((reg, _, _)) => {
+                if !(reg <= env + 1e-9 * sc) {
+                    ctx.fail_prop(case, format!("true regret {:e} above 3 D N sqrt(A)/sqrt(T) = {:e}", reg, env));
+                }
+            }
+        }
+    }
+
+    // --- C10 (on the implementation): draw discipline
+    if has("draws") {
+        match lib_log_map(&res.log) {
+            Err(e) => ctx.fail_prop(case, format!("more than one draw per infoset and pass: {}", e)),
+            Ok(m) => {
+                if cfg.method == "F" && !m.is_empty() {
+                    ctx.fail_prop(case, format!("the unsampled method made {} draws", m.len()));
+                }
+                if cfg.method == "S" && m.keys().any(|k| k.0 != 0) {
+                    ctx.fail_prop(case, "the chance-sampled method sampled a player action".to_string());
+                }
+                let dump = g.verif_dump();
+                let mut tk = Toks::new(&dump);
+                tk.tok();
+                let nc = tk.nat();
+                let probs: Vec<Vec<f64>> = (0..nc).map(|_| { let k = tk.nat(); (0..k).map(|_| tk.f()).collect() }).collect();
+                for (k, (r, ws)) in &m {
+                    if *r >= ws.len() {
+                        ctx.fail_prop(case, format!("draw {:?} returned index {} of {}", k, r, ws.len()));
+                    }
+                    if k.0 == 0 && (k.1 >= probs.len() || probs[k.1] != *ws) {
+                        ctx.fail_prop(case, format!("chance infoset {} sampled with weights {:?}", k.1, ws));
+                    }
+                    if k.0 != 0 && (ws.iter().any(|w| !(*w >= 0.0)) || (ws.iter().sum::<f64>() - 1.0).abs() > 1e-9) {
+                        ctx.fail_prop(case, format!("player infoset sampled with weights {:?}", ws));
+                    }
+                }
+                ctx.statn("draws_logged", m.len() as u64);
+            }
+        }
+    }
+
+    // --- correspondence with the model (C08, C10, and the backbone of the rest)
+    if has("corr") {
+        let multi = if cfg.threads != 1 { cfg.target } else { None };
+        match run_model(ctx, &t, &cfg, multi) {
+            Err(e) => ctx.fail_corr(case, format!("model answered {}", &e[..e.len().min(200)])),
+            Ok(m) => {
+                let mut bad: Option<String> = compare_with_model(&res, &m, sc).err();
+                if bad.is_none() && cfg.method != "F" || has("draws") {
+                    if let Ok(lm) = lib_log_map(&res.log) {
+                        if let Err(e) = logs_agree(&lm, &model_log_map(&m.log)) {
+                            bad = Some(bad.map(|b| format!("{}; draw logs: {}", b, e)).unwrap_or(format!("draw logs: {}", e)));
+                        }
+                    }
+                }
+                if let Some(e) = bad {
+                    let margin = model_margin(ctx, &t, &cfg);
+                    if margin < ILL {
+                        ctx.skipped_illcond += 1;
+                        ctx.stat("ill_conditioned_skipped");
+                    } else {
+                        ctx.fail_corr(case, format!("{} (conditioning margin {:e})", e, margin));
+                    }
+                } else {
+                    ctx.stat("model_agrees");
+                    if res.bounds == m.bounds {
+                        ctx.stat("model_bounds_bit_equal");
+                    }
+                }
+            }
+        }
+    }
+
+    // --- C06 / C07: k threads equal one thread (same draws)
+    if has("multi_eq_single") && cfg.threads != 1 {
+        let mut c1 = cfg.clone();
+        c1.threads = 1;
+        c1.target = None;
+        match run_lib(&g, &c1) {
+            Outcome::Ok(r1) => {
+                let d = named_diff(&res.named[0], &r1.named[0]).max(named_diff(&res.named[1], &r1.named[1]));
+                let mut bad = None;
+                if !(d <= 1e-8) || !bounds_close(&res.bounds, &r1.bounds, 1e-9 * sc) {
+                    bad = Some(format!(
+                        "{} threads (target {:?}) differ from one thread: strategies by {:e}, bounds {:?} vs {:?}",
+                        cfg.threads, cfg.target, d, res.bounds, r1.bounds
+                    ));
+                }
+                if bad.is_none() && cfg.method != "F" {
+                    match (lib_log_map(&res.log), lib_log_map(&r1.log)) {
+                        (Ok(a), Ok(b)) => {
+                            if let Err(e) = logs_agree(&a, &b) {
+                                bad = Some(format!("draws with {} threads differ from one thread: {}", cfg.threads, e));
+                            }
+                        }
+                        (Err(e), _) | (_, Err(e)) => bad = Some(e),
+                    }
+                }
+                if let Some(e) = bad {
+                    let margin = model_margin(ctx, &t, &c1);
+                    if margin < ILL {
+                        ctx.skipped_illcond += 1;
+                        ctx.stat("ill_conditioned_skipped");
+                    } else {
+                        ctx.fail_prop(case, format!("{} (conditioning margin {:e})", e, margin));
+                    }
+                } else {
+                    ctx.stat("threads_agree");
+                    if res.named == r1.named {
+                        ctx.stat("threads_bit_equal");
+                    }
+                }
+            }
+            o => ctx.fail_prop(case, format!("single-threaded reference run failed: {:?}", o)),
+        }
+    }
+
+    // --- C09: threshold equals prefix
+    if has("prefix") {
+        // the bound sequence without a threshold
+        let mut tstar = cfg.iters;
+        let mut seq = Vec::new();
+        for k in 1..=cfg.iters {
+            let mut ck = cfg.clone();
+            ck.iters = k;
+            ck.thr = 0.0;
+            match run_lib(&g, &ck) {
+                Outcome::Ok(r) => {
+                    seq.push(r.total);
+                    if r.total < cfg.thr {
+                        tstar = k;
+                        break;
+                    }
+                }
+                o => return ctx.fail_prop(case, format!("prefix run failed: {:?}", o)),
+            }
+        }
+        let mut cp = cfg.clone();
+        cp.iters = tstar;
+        cp.thr = 0.0;
+        match run_lib(&g, &cp) {
+            Outcome::Ok(rp) => {
+                let exact = cfg.threads == 1;
+                let d = named_diff(&res.named[0], &rp.named[0]).max(named_diff(&res.named[1], &rp.named[1]));
+                let same = if exact {
+                    res.named == rp.named && res.bounds == rp.bounds
+                } else {
+                    d <= 1e-8 && bounds_close(&res.bounds, &rp.bounds, 1e-9 * sc)
+                };
+                if !same {
+                    ctx.fail_prop(
+                        case,
+                        format!(
+                            "threshold {:e}, budget {}: result differs from the run with budget t* = {} and no threshold (bounds {:?} vs {:?}, strategies by {:e}; bound sequence {:?})",
+                            cfg.thr, cfg.iters, tstar, res.bounds, rp.bounds, d, seq
+                        ),
+                    );
+                }
+                if tstar < cfg.iters && !(res.total < cfg.thr) {
+                    ctx.fail_prop(case, format!("fewer than {} iterations ran but the bound {:e} is not below {:e}", cfg.iters, res.total, cfg.thr));
+                }
+                if tstar < cfg.iters {
+                    ctx.stat("stopped_early");
+                } else {
+                    ctx.stat("ran_to_budget");
+                }
+            }
+            o => ctx.fail_prop(case, format!("prefix run failed: {:?}", o)),
+        }
+    }
+}
+
+fn solve_case(t: &T, cfg: &Cfg, asserts: &[&str]) -> Value {
+    json!({"op": "solve", "tree": t.to_json(), "cfg": cfg.json(), "asserts": asserts})
+}
+
+fn small_game(ctx: &mut Ctx, i: u64, max_nodes: usize) -> (T, &'static str) {
+    loop {
+        let (t, fam) = gen_game(&mut ctx.rng, i, max_nodes);
+        if build(&t).is_ok() {
+            return (t, fam);
+        }
+    }
+}
+
+fn sample_case(ctx: &mut Ctx, t: &T, fam: &str, cfg: &Cfg) {
+    let v = json!({"family": fam, "nodes": t.size(), "cfg": cfg.json(), "tree_line": t.to_line()});
+    ctx.sample(v);
+}
+
+// ---------------------------------------------------------------------------------------------
+// C02
+
+pub fn c02(ctx: &mut Ctx) -> String {
+    let n = if ctx.thorough { 6000 } else { 500 };
+    for i in 0..n {
+        if ctx.out_of_time() {
+            break;
+        }
+        let (t, fam) = small_game(ctx, i, 500);
+        ctx.stat(&format!("family_{}", fam));
+        let iters = match ctx.rng.below(10) {
+            0 => 100,
+            1 => if ctx.thorough { 1000 } else { 200 },
+            _ => ctx.rng.range(1, 40),
+        };
+        let threads = *ctx.rng.pick(&[1usize, 1, 2, 5, 16]);
+        let mut cfg = Cfg { method: "F".into(), params: Params::vanilla(), iters, thr: 0.0, threads, target: None, seed: 0 };
+        // place the threshold around a bound value of the run
+        if ctx.rng.chance(0.5) {
+            let g = build(&t).unwrap();
+            let mut c0 = cfg.clone();
+            c0.iters = ctx.rng.range(1, iters);
+            c0.threads = 1;
+            if let Outcome::Ok(r) = run_lib(&g, &c0) {
+                cfg.thr = r.total * *ctx.rng.pick(&[0.5, 1.0, 1.0000001, 2.0]);
+            }
+        }
+        if i < 2 {
+            sample_case(ctx, &t, fam, &cfg);
+        }
+        let asserts: &[&str] = if threads == 1 && iters <= 40 { &["bound", "corr"] } else { &["bound"] };
+        case_solve(ctx, &solve_case(&t, &cfg, asserts));
+    }
+    "Full method, vanilla parameters: games from the mixed stream x budgets {1..40, 100, 200/1000} x thresholds {0, around a bound value of the run} x threads {1, 2, 5, 16}; the returned total bound against get_info().regret() of the returned profile; single-threaded short runs are also compared with the model".to_string()
+}
+
+// ---------------------------------------------------------------------------------------------
+// C03
+
+pub fn c03(ctx: &mut Ctx) -> String {
+    let n = if ctx.thorough { 4000 } else { 320 };
+    let grid: &[u64] = if ctx.thorough { &[1, 2, 3, 5, 10, 30, 100, 300, 1000, 5000] } else { &[1, 2, 3, 5, 10, 30, 100, 500] };
+    for i in 0..n {
+        if ctx.out_of_time() {
+            break;
+        }
+        let (t, fam) = small_game(ctx, i, 300);
+        ctx.stat(&format!("family_{}", fam));
+        let (pn, params) = Params::presets()[(i % 5) as usize];
+        ctx.stat(&format!("preset_{}", pn));
+        let iters = grid[((i / 5) as usize) % grid.len()];
+        let threads = *ctx.rng.pick(&[1usize, 1, 2, 16]);
+        let cfg = Cfg { method: "F".into(), params, iters, thr: 0.0, threads, target: None, seed: 0 };
+        if i < 2 {
+            sample_case(ctx, &t, fam, &cfg);
+        }
+        let mut case = solve_case(&t, &cfg, &["rate"]);
+        case["collect"] = json!(format!("T{}", iters));
+        case_solve(ctx, &case);
+    }
+    // regret tends to zero: mean relative regret per budget must decrease along the grid
+    let mut means = Vec::new();
+    for tt in grid {
+        let s = ctx.stats.get(&format!("sum_ppm_T{}", tt)).cloned().unwrap_or(0);
+        let k = ctx.stats.get(&format!("n_T{}", tt)).cloned().unwrap_or(0);
+        if k >= 5 {
+            means.push((*tt, s as f64 / k as f64));
+        }
+    }
+    if means.len() >= 3 {
+        let first = means[0].1;
+        let last = means[means.len() - 1].1;
+        if !(last < first * 0.2) {
+            ctx.fail_prop(&json!({"op": "collection", "means_ppm": means}), format!("mean relative regret does not fall with the budget: {:?}", means));
+        }
+    }
+    "Full method: games from the mixed stream x the five presets x budgets on a grid from 1 to 500 (quick) / 5000 (thorough) x threads {1, 2, 16}; vanilla bounds against 2 D N sqrt(A)/sqrt(T), true regret (get_info) against 6 D N (sqrt(A)+1/sqrt(T))/sqrt(T); mean relative regret must fall along the grid".to_string()
+}
+
+// ---------------------------------------------------------------------------------------------
+// C04
+
+pub fn c04(ctx: &mut Ctx) -> String {
+    let n = if ctx.thorough { 1500 } else { 160 };
+    let (t_lo, t_hi) = if ctx.thorough { (100u64, 3000u64) } else { (100u64, 1500u64) };
+    let mut rel_lo: Vec<f64> = Vec::new();
+    let mut rel_hi: Vec<f64> = Vec::new();
+    for i in 0..n {
+        if ctx.out_of_time() {
+            break;
+        }
+        let (t, fam) = small_game(ctx, i, 200);
+        let (n_info, _, d) = stats_of(&t);
+        if n_info == 0 || d <= 0.0 {
+            continue;
+        }
+        ctx.stat(&format!("family_{}", fam));
+        let method = if i % 2 == 0 { "S" } else { "E" };
+        let (pn, params) = Params::presets()[((i / 2) % 5) as usize];
+        ctx.stat(&format!("preset_{}", pn));
+        let threads = *ctx.rng.pick(&[1usize, 1, 2, 4]);
+        let seed = ctx.rng.next() >> 12;
+        let g = build(&t).unwrap();
+        for (which, tt) in [(0, t_lo), (1, t_hi)] {
+            let cfg = Cfg { method: method.into(), params, iters: tt, thr: 0.0, threads, target: None, seed };
+            if i < 1 && which == 0 {
+                sample_case(ctx, &t, fam, &cfg);
+            }
+            let case = solve_case(&t, &cfg, &["sampled_rate"]);
+            case_solve(ctx, &case);
+            if let Outcome::Ok(r) = run_lib(&g, &cfg) {
+                if let Ok((reg, _, _)) = true_regret(&g, &r.named) {
+                    if which == 0 { rel_lo.push(reg / d) } else { rel_hi.push(reg / d) }
+                }
+            }
+        }
+    }
+    let med = |v: &mut Vec<f64>| -> f64 {
+        v.sort_by(|a, b| a.partial_cmp(b).unwrap());
+        if v.is_empty() { 0.0 } else { v[v.len() / 2] }
+    };
+    if rel_lo.len() >= 20 {
+        let (mlo, mhi) = (med(&mut rel_lo), med(&mut rel_hi));
+        ctx.statn("median_relative_regret_ppm_at_low_budget", (mlo * 1e6) as u64);
+        ctx.statn("median_relative_regret_ppm_at_high_budget", (mhi * 1e6) as u64);
+        if !(mhi < 0.01) {
+            ctx.fail_prop(&json!({"op": "collection"}), format!("median relative regret after {} iterations is {:e} (not below one percent)", t_hi, mhi));
+        }
+        if mlo > 1e-4 && !(mhi < mlo * 0.6) {
+            ctx.fail_prop(&json!({"op": "collection"}), format!("median relative regret {:e} after {} iterations is not far below {:e} after {}", mhi, t_hi, mlo, t_lo));
+        }
+    }
+    "Sampled and External methods under the keyed draw hook (draws follow the presented distributions through the inverse CDF): games from the mixed stream (no chance infoset twice on a path) x the five presets x threads {1, 2, 4} x seeds; per game the true regret against 3 D N sqrt(A)/sqrt(T) at two budgets; over the collection the median relative regret at the high budget below 1% and well below the low-budget median".to_string()
+}
+
+// ---------------------------------------------------------------------------------------------
+// C05
+
+pub fn c05(ctx: &mut Ctx) -> String {
+    let n = if ctx.thorough { 12000 } else { 900 };
+    for i in 0..n {
+        if ctx.out_of_time() {
+            break;
+        }
+        let (t, fam) = small_game(ctx, i, 400);
+        ctx.stat(&format!("family_{}", fam));
+        let method = *ctx.rng.pick(&["F", "S", "E"]);
+        let (pn, params) = Params::pick(&mut ctx.rng);
+        ctx.stat(&format!("params_{}", pn));
+        let iters = *ctx.rng.pick(&[0u64, 1, 2, 7, 50]);
+        let thr = *ctx.rng.pick(&[-1.0, 0.0, 1e-3, INF, f64::NAN, 0.5]);
+        let threads = match ctx.rng.below(14) {
+            0 => 0usize,
+            1 | 2 | 3 | 4 => 1,
+            5 => 2,
+            6 => 3,
+            7 => 16,
+            8 => 17,
+            9 => if ctx.thorough { 300 } else { 40 },
+            // usize::MAX / 3 itself (no overflow, so the pool is really requested) is known finding
+            // F28: the call does not return within minutes; see known_findings.txt
+            10 => usize::MAX / 3 + 2,
+            11 => usize::MAX / 3 + 1,
+            12 => usize::MAX,
+            _ => 4,
+        };
+        let seed = ctx.rng.next() >> 12;
+        let cfg = Cfg { method: method.into(), params, iters, thr, threads, target: None, seed };
+        if i < 2 {
+            sample_case(ctx, &t, fam, &cfg);
+        }
+        // production samplers every fourth case (no hook): covered by running the library directly
+        case_solve(ctx, &solve_case(&t, &cfg, &["wellformed"]));
+        if i % 4 == 0 && threads <= 17 {
+            let g = build(&t).unwrap();
+            let r = catch_unwind(AssertUnwindSafe(|| {
+                g.solve(method_of(method), iters, thr, threads, Some(params.to_lib())).map(|(s, _)| drain_named(&s))
+            }));
+            ctx.stat("production_sampler_runs");
+            match r {
+                Err(_) => ctx.fail_prop(&solve_case(&t, &cfg, &["wellformed"]), "solve with the production samplers panicked".to_string()),
+                Ok(Ok(nm)) => {
+                    for p in 0..2 {
+                        if let Err(e) = named_valid(&nm[p]) {
+                            ctx.fail_prop(&solve_case(&t, &cfg, &["wellformed"]), format!("production samplers: {}", e));
+                        }
+                    }
+                }
+                Ok(Err(_)) => {}
+            }
+        }
+    }
+    "all three methods x games from the mixed stream x {five presets, RegretParams::new tuples over exponents {-inf, -1e3, -1.5, -1, 0, 0.5, 1, 1.5, 2, 1e3, +inf}, gamma {0, .5, 1, 2, 3}, soft-max weights {-inf, -2, -.5, 0, .5, 1, 3, +inf}} x budgets {0, 1, 2, 7, 50} x thresholds {-1, 0, 1e-3, 0.5, +inf, NaN} x threads {0, 1, 2, 3, 4, 16, 17, 40/300, usize::MAX/3, usize::MAX/3+1, usize::MAX}; every call under catch_unwind; every fourth case additionally with the production samplers".to_string()
+}
+
+// ---------------------------------------------------------------------------------------------
+// C06 / C07
+
+fn threads_check(ctx: &mut Ctx, methods: &[&str]) {
+    let n = if ctx.thorough { 5000 } else { 420 };
+    let reps = if ctx.thorough { 3 } else { 1 };
+    for i in 0..n {
+        if ctx.out_of_time() {
+            break;
+        }
+        let (t, fam) = small_game(ctx, i, 500);
+        ctx.stat(&format!("family_{}", fam));
+        let method = methods[(i as usize) % methods.len()];
+        let (pn, params) = Params::pick(&mut ctx.rng);
+        ctx.stat(&format!("params_{}", pn));
+        let iters = *ctx.rng.pick(&[1u64, 2, 2, 3, 3, 4, 4, 6, 10, 25]);
+        let threads = *ctx.rng.pick(&[2usize, 2, 3, 4, 8, 16]);
+        let target = if ctx.rng.chance(0.6) { Some(ctx.rng.range(1, 64) as usize) } else { None };
+        let thr = if ctx.rng.chance(0.2) { 0.05 * t.range() } else { 0.0 };
+        let seed = ctx.rng.next() >> 12;
+        let cfg = Cfg { method: method.into(), params, iters, thr, threads, target, seed };
+        if i < 2 {
+            sample_case(ctx, &t, fam, &cfg);
+        }
+        let asserts: &[&str] = if target.is_some() && i % 3 == 0 { &["multi_eq_single", "corr"] } else { &["multi_eq_single"] };
+        for _ in 0..reps {
+            case_solve(ctx, &solve_case(&t, &cfg, asserts));
+        }
+    }
+}
+
+pub fn c06(ctx: &mut Ctx) -> String {
+    threads_check(ctx, &["F"]);
+    "Full method: games from the mixed stream x presets and custom parameter tuples x budgets {1, 2, 3, 4, 6, 10, 25} x threads {2, 3, 4, 8, 16} x task targets {3 x threads, 1..64 through the hook} x thresholds; strategies and bounds against the single-threaded run (tolerance 1e-8 / 1e-9); a third of the explicit-target cases also against the model's frontier/task/cached-traversal run".to_string()
+}
+
+pub fn c07(ctx: &mut Ctx) -> String {
+    threads_check(ctx, &["S", "E"]);
+    "Sampled and External methods under the keyed draw hook: same grid as C06; strategies, bounds and draw logs (one draw per infoset and pass, same keys, same weights, same indices) against the single-threaded run with the same draws; a third of the explicit-target cases also against the model".to_string()
+}
+
+// ---------------------------------------------------------------------------------------------
+// C08
+
+pub fn c08(ctx: &mut Ctx) -> String {
+    // presets and default through the public fields
+    let resp = ctx.model.ask("presets");
+    let mut tk = Toks::new(resp.strip_prefix("ok ").unwrap_or(""));
+    let libs = [
+        RegretParams::vanilla(),
+        RegretParams::lcfr(),
+        RegretParams::cfr_plus(),
+        RegretParams::dcfr(),
+        RegretParams::dcfr_prune(),
+        RegretParams::default(),
+    ];
+    let docs = [
+        (INF, INF, 0.0, 0.0),
+        (1.0, 1.0, 1.0, INF),
+        (INF, -INF, 2.0, INF),
+        (1.5, 0.0, 2.0, INF),
+        (1.5, 0.5, 2.0, INF),
+        (1.5, 0.0, 2.0, INF),
+    ];
+    for (k, l) in libs.iter().enumerate() {
+        let m = (tk.f(), tk.f(), tk.f(), tk.f());
+        let got = (l.pos_regret, l.neg_regret, l.strat, l.no_positive);
+        if got != m {
+            ctx.fail_corr(&json!({"op": "presets", "index": k}), format!("preset {}: library {:?}, model {:?}", k, got, m));
+        }
+        if got != docs[k] {
+            ctx.fail_prop(&json!({"op": "presets", "index": k}), format!("preset {}: library {:?}, documented {:?}", k, got, docs[k]));
+        }
+        ctx.count(k as u64, true);
+    }
+    let n = if ctx.thorough { 2500 } else { 220 };
+    let grid: &[u64] = &[0, 1, 2, 3, 5, 8, 13, 21, 34, 50];
+    for i in 0..n {
+        if ctx.out_of_time() {
+            break;
+        }
+        let (t, fam) = small_game(ctx, i, 300);
+        ctx.stat(&format!("family_{}", fam));
+        let method = ["F", "S", "E"][(i % 3) as usize];
+        let (pn, params) = Params::pick(&mut ctx.rng);
+        ctx.stat(&format!("params_{}", pn));
+        let seed = ctx.rng.next() >> 12;
+        for (k, tt) in grid.iter().enumerate() {
+            if !ctx.thorough && k % 2 == (i % 2) as usize && *tt > 3 {
+                continue;
+            }
+            let cfg = Cfg { method: method.into(), params, iters: *tt, thr: 0.0, threads: 1, target: None, seed };
+            if i < 2 && *tt == 5 {
+                sample_case(ctx, &t, fam, &cfg);
+            }
+            case_solve(ctx, &solve_case(&t, &cfg, &["corr", "draws"]));
+        }
+        // None means the documented default
+        if i % 10 == 0 {
+            let g = build(&t).unwrap();
+            if let (Ok((a, _)), Ok((b, _))) = (
+                g.solve(SolveMethod::Full, 5, 0.0, 1, None),
+                g.solve(SolveMethod::Full, 5, 0.0, 1, Some(RegretParams::dcfr())),
+            ) {
+                if a != b {
+                    ctx.fail_prop(&json!({"op": "default-params", "tree": t.to_json()}), "omitting the parameters differs from dcfr".to_string());
+                }
+            }
+        }
+    }
+    "single-threaded solves of all three methods under the keyed draw hook: games from the mixed stream (generic and tie-rich integer payoffs) x presets and custom tuples incl. 0 and +-inf x every prefix budget in {0,1,2,3,5,8,13,21,34,50}; returned strategies, both bounds and the draw log against the model; preset tuples and the default through the public fields".to_string()
+}
+
+// ---------------------------------------------------------------------------------------------
+// C09
+
+fn next_up(x: f64) -> f64 {
+    if x.is_nan() || x == INF {
+        return x;
+    }
+    if x == 0.0 {
+        return 5e-324;
+    }
+    let b = x.to_bits();
+    f64::from_bits(if x > 0.0 { b + 1 } else { b - 1 })
+}
+
+pub fn c09(ctx: &mut Ctx) -> String {
+    let n = if ctx.thorough { 2500 } else { 260 };
+    for i in 0..n {
+        if ctx.out_of_time() {
+            break;
+        }
+        let (t, fam) = small_game(ctx, i, 200);
+        ctx.stat(&format!("family_{}", fam));
+        let method = ["F", "S", "E"][(i % 3) as usize];
+        let (pn, params) = Params::pick(&mut ctx.rng);
+        ctx.stat(&format!("params_{}", pn));
+        let budget = ctx.rng.range(2, if ctx.thorough { 16 } else { 10 });
+        let seed = ctx.rng.next() >> 12;
+        let threads = if ctx.rng.chance(0.25) { *ctx.rng.pick(&[2usize, 4]) } else { 1 };
+        let g = build(&t).unwrap();
+        // a bound value occurring along the run
+        let k = ctx.rng.range(1, budget);
+        let c0 = Cfg { method: method.into(), params, iters: k, thr: 0.0, threads: 1, target: None, seed };
+        let b = match run_lib(&g, &c0) {
+            Outcome::Ok(r) => r.total,
+            _ => 0.1,
+        };
+        let thr = match ctx.rng.below(9) {
+            0 => 0.0,
+            1 => -1.0,
+            2 => f64::NAN,
+            3 => INF,
+            4 => b,
+            5 => next_up(b),
+            6 => -next_up(-b),
+            7 => b * 1.5,
+            _ => b * 0.7,
+        };
+        ctx.stat(&format!("threshold_{}", match ctx.rng.0 % 1 { _ => if thr.is_nan() { "nan" } else if thr <= 0.0 { "nonpositive" } else if thr == INF { "inf" } else { "around_a_bound" } }));
+        let cfg = Cfg { method: method.into(), params, iters: budget, thr, threads, target: None, seed };
+        if i < 2 {
+            sample_case(ctx, &t, fam, &cfg);
+        }
+        let asserts: &[&str] = if threads == 1 { &["prefix", "corr"] } else { &["prefix"] };
+        case_solve(ctx, &solve_case(&t, &cfg, asserts));
+    }
+    "all three methods (sampled ones under the keyed draw hook) x games x presets and custom tuples x budgets 2..10 (quick) / 2..16 (thorough) x thresholds {0, -1, NaN, +inf, a bound value b occurring along the run, its two float neighbours, 1.5 b, 0.7 b} x threads {1, 2, 4}: the run with the threshold against the run with budget t* and no threshold (bit-exact for one thread); single-threaded cases also against the model".to_string()
+}
+
+// ---------------------------------------------------------------------------------------------
+// C10
+
+pub fn c10(ctx: &mut Ctx) -> String {
+    // the categorical sampler on the complete dyadic grid: weights are multiples of 1/8 summing to
+    // at most 2, u = j/64
+    let ws_alpha = [0.0, 0.125, 0.25, 0.5, 0.75, 1.0];
+    let max_len = if ctx.thorough { 5 } else { 4 };
+    let mut stack: Vec<Vec<f64>> = vec![vec![]];
+    while let Some(ws) = stack.pop() {
+        if !ws.is_empty() {
+            for j in 0..64u64 {
+                let k = j << 47; // j/64 as a 53-bit variate
+                let case = json!({"op": "multinomial", "weights": ws.iter().map(|w| fjson(*w)).collect::<Vec<_>>(), "k": k, "dyadic": true});
+                case_multinomial(ctx, &case);
+            }
+            ctx.stat("dyadic_weight_vectors");
+        }
+        if ws.len() < max_len {
+            for w in ws_alpha {
+                let mut v = ws.clone();
+                v.push(w);
+                if v.iter().sum::<f64>() <= 2.0 {
+                    stack.push(v);
+                }
+            }
+        }
+    }
+    // random doubles
+    let m = if ctx.thorough { 40_000 } else { 4_000 };
+    for i in 0..m {
+        let len = ctx.rng.range(1, 6) as usize;
+        let mut ws: Vec<f64> = (0..len).map(|_| ctx.rng.unit()).collect();
+        if ctx.rng.chance(0.8) {
+            let tot: f64 = ws.iter().sum();
+            ws.iter_mut().for_each(|w| *w /= tot);
+        }
+        let k = ctx.rng.next() >> 11;
+        let case = json!({"op": "multinomial", "weights": ws.iter().map(|w| fjson(*w)).collect::<Vec<_>>(), "k": k});
+        if i == 0 {
+            ctx.sample(json!({"sampler_weights": ws, "variate_numerator": k}));
+        }
+        case_multinomial(ctx, &case);
+    }
+    // draw discipline of the solvers
+    let n = if ctx.thorough { 2500 } else { 240 };
+    for i in 0..n {
+        if ctx.out_of_time() {
+            break;
+        }
+        let (t, fam) = small_game(ctx, i, 400);
+        ctx.stat(&format!("family_{}", fam));
+        let method = ["S", "E", "F", "E"][(i % 4) as usize];
+        let (_, params) = Params::pick(&mut ctx.rng);
+        let iters = ctx.rng.range(1, 12);
+        let threads = if ctx.rng.chance(0.3) { *ctx.rng.pick(&[2usize, 3, 8]) } else { 1 };
+        let seed = ctx.rng.next() >> 12;
+        let cfg = Cfg { method: method.into(), params, iters, thr: 0.0, threads, target: None, seed };
+        if i < 2 {
+            sample_case(ctx, &t, fam, &cfg);
+        }
+        let asserts: &[&str] = if threads == 1 { &["draws", "corr"] } else { &["draws", "multi_eq_single"] };
+        case_solve(ctx, &solve_case(&t, &cfg, asserts));
+    }
+    // the production samplers, observed: frequencies follow the declared weights (5 sigma)
+    let reps = if ctx.thorough { 20 } else { 4 };
+    for r in 0..reps {
+        let w = [1.0 + ctx.rng.below(3) as f64, 1.0 + ctx.rng.below(3) as f64, 1.0];
+        let t = T::Chance(
+            Some(0),
+            w.iter().map(|x| (*x, T::Player(true, 0, vec![(0, T::Term(1.0)), (1, T::Term(-1.0))]))).collect(),
+        );
+        let g = build(&t).unwrap();
+        let iters = 6000u64;
+        cfr::verif::set_draw_hook(None);
+        cfr::verif::set_observe(true);
+        let _ = cfr::verif::take_log();
+        let method = if r % 2 == 0 { SolveMethod::Sampled } else { SolveMethod::External };
+        let _ = g.solve(method, iters, 0.0, 1, None);
+        cfr::verif::set_observe(false);
+        let log = cfr::verif::take_log();
+        let chance: Vec<&DrawRecord> = log.iter().filter(|d| d.kind == 0).collect();
+        let passes = chance.len() as f64;
+        let tot: f64 = w.iter().sum();
+        let expected_passes = if r % 2 == 0 { iters } else { 2 * iters } as f64;
+        if passes != expected_passes {
+            ctx.fail_prop(&json!({"op": "production-sampler", "weights": w}), format!("{} chance draws in {} passes", passes, expected_passes));
+        }
+        for (k, wk) in w.iter().enumerate() {
+            let p = wk / tot;
+            let cnt = chance.iter().filter(|d| d.result == k).count() as f64;
+            let sigma = (passes * p * (1.0 - p)).sqrt();
+            if (cnt - passes * p).abs() > 5.0 * sigma + 1.0 {
+                ctx.fail_prop(&json!({"op": "production-sampler", "weights": w}), format!("outcome {} drawn {} times in {} passes, expected {:.0} +- {:.0}", k, cnt, passes, passes * p, sigma));
+            }
+        }
+        ctx.stat("production_sampler_frequency_tests");
+    }
+    "the categorical sampler on the complete dyadic grid (weights in {0, 1/8, 1/4, 1/2, 3/4, 1}, length <= 4 (quick) / 5 (thorough), sum <= 2, u = j/64; exact interval oracle) and on random doubles, against the model; draw logs of the three methods (kind, infoset, pass, weights, index) against the model and against the discipline rules; observed production samplers against the declared weights".to_string()
+}
+
+// ---------------------------------------------------------------------------------------------
+// C12: presentation invariance (metamorphic, on the implementation)
+
+fn rename_map(rng: &mut Rng) -> (u32, u32) {
+    // injective affine renaming x -> a*x + b with odd a
+    (1 + 2 * rng.below(4) as u32, rng.below(50) as u32)
+}
+
+fn transform(t: &T, what: &str, rng: &mut Rng, c: f64) -> T {
+    match what {
+        "rescale_chance" => match t {
+            T::Term(p) => T::Term(*p),
+            T::Chance(i, o) => {
+                // same constant for every node of a named infoset is not required: any positive constant per node
+                let k = if i.is_some() { c } else { *rng.pick(&[0.5, 2.0, 4.0, c]) };
+                T::Chance(*i, o.iter().map(|(w, x)| (w * k, transform(x, what, rng, c))).collect())
+            }
+            T::Player(p, i, a) => T::Player(*p, *i, a.iter().map(|(x, y)| (*x, transform(y, what, rng, c))).collect()),
+        },
+        "degenerate" => {
+            let inner = match t {
+                T::Term(p) => T::Term(*p),
+                T::Chance(i, o) => T::Chance(*i, o.iter().map(|(w, x)| (*w, transform(x, what, rng, c))).collect()),
+                T::Player(p, i, a) => T::Player(*p, *i, a.iter().map(|(x, y)| (*x, transform(y, what, rng, c))).collect()),
+            };
+            match rng.below(5) {
+                0 => T::Chance(None, vec![(3.0, inner)]),
+                1 => T::Player(rng.chance(0.5), 9000 + rng.below(3) as u32, vec![(5, inner)]),
+                _ => inner,
+            }
+        }
+        "swap" => match t {
+            T::Term(p) => T::Term(-*p),
+            T::Chance(i, o) => T::Chance(*i, o.iter().map(|(w, x)| (*w, transform(x, what, rng, c))).collect()),
+            T::Player(p, i, a) => T::Player(!*p, *i, a.iter().map(|(x, y)| (*x, transform(y, what, rng, c))).collect()),
+        },
+        _ => t.clone(),
+    }
+}
+
+fn rename_tree(t: &T, mi: (u32, u32), ma: (u32, u32), mc: (u32, u32)) -> T {
+    match t {
+        T::Term(p) => T::Term(*p),
+        T::Chance(i, o) => T::Chance(i.map(|l| mc.0 * l + mc.1), o.iter().map(|(w, x)| (*w, rename_tree(x, mi, ma, mc))).collect()),
+        T::Player(p, i, a) => T::Player(*p, mi.0 * *i + mi.1, a.iter().map(|(x, y)| (ma.0 * *x + ma.1, rename_tree(y, mi, ma, mc))).collect()),
+    }
+}
+
+fn rename_named(n: &Named, mi: (u32, u32), ma: (u32, u32)) -> Named {
+    n.iter().map(|(l, a)| (mi.0 * l + mi.1, a.iter().map(|(x, p)| (ma.0 * x + ma.1, *p)).collect())).collect()
+}
+
+fn drop_labels(n: &Named, pred: &dyn Fn(u32) -> bool) -> Named {
+    n.iter().filter(|(l, _)| !pred(*l)).cloned().collect()
+}
+
+pub fn case_meta(ctx: &mut Ctx, case: &Value) {
+    let t = case_tree(case);
+    let what = case["what"].as_str().unwrap_or("");
+    let c = fparse(&case["c"]).unwrap_or(2.0);
+    let cfg = Cfg::from_json(&case["cfg"]);
+    let prof = case_prof(case, "prof");
+    let mut rng = Rng::new(case["rseed"].as_u64().unwrap_or(0));
+    let (mi, ma, mc) = (rename_map(&mut rng), rename_map(&mut rng), rename_map(&mut rng));
+    let t2 = match what {
+        "rename" => rename_tree(&t, mi, ma, mc),
+        "scale" => t.map_payoffs(&|p| p * c),
+        "shift" => t.map_payoffs(&|p| p + c),
+        _ => transform(&t, what, &mut rng, c),
+    };
+    let (g1, g2) = match (build(&t), build(&t2)) {
+        (Ok(a), Ok(b)) => (a, b),
+        (a, b) => {
+            return ctx.fail_prop(case, format!("transformation {} changes acceptance: {:?} vs {:?}", what, a.err(), b.err()));
+        }
+    };
+    let sc = {
+        let mut v = Vec::new();
+        t.payoffs(&mut v);
+        t2.payoffs(&mut v);
+        v.iter().fold(1.0f64, |a, b| a.max(b.abs()))
+    };
+    // how results map back
+    let back = |n: &[Named; 2]| -> [Named; 2] {
+        match what {
+            "rename" => {
+                // invert by renaming the original instead
+                n.clone()
+            }
+            "swap" => [n[1].clone(), n[0].clone()],
+            "degenerate" => [drop_labels(&n[0], &|l| l >= 9000), drop_labels(&n[1], &|l| l >= 9000)],
+            _ => n.clone(),
+        }
+    };
+    let fwd_prof = |n: &[Named; 2]| -> [Named; 2] {
+        match what {
+            "rename" => [rename_named(&n[0], mi, ma), rename_named(&n[1], mi, ma)],
+            "swap" => [n[1].clone(), n[0].clone()],
+            "degenerate" => {
+                let infos = infosets_of(&t2);
+                let mut out = n.clone();
+                for p in 0..2 {
+                    for (l, a) in &infos[p] {
+                        if *l >= 9000 {
+                            out[p].push((*l, vec![(a[0], 1.0)]));
+                        }
+                    }
+                }
+                out
+            }
+            _ => n.clone(),
+        }
+    };
+    // evaluation
+    let (s1, s2) = match (g1.from_named(prof.clone()), g2.from_named(fwd_prof(&prof))) {
+        (Ok(a), Ok(b)) => (a, b),
+        (a, b) => return ctx.fail_prop(case, format!("profile import differs under {}: {:?} vs {:?}", what, a.err(), b.err())),
+    };
+    let (i1, i2) = (s1.get_info(), s2.get_info());
+    let (u1, u2) = (i1.player_utility(PlayerNum::One), i2.player_utility(PlayerNum::One));
+    let r1 = [i1.player_regret(PlayerNum::One), i1.player_regret(PlayerNum::Two)];
+    let r2 = [i2.player_regret(PlayerNum::One), i2.player_regret(PlayerNum::Two)];
+    let tol = 1e-9 * sc;
+    let (wu, wr) = match what {
+        "scale" => (u1 * c, [r1[0] * c, r1[1] * c]),
+        "shift" => (u1 + c, r1),
+        "swap" => (-u1, [r1[1], r1[0]]),
+        _ => (u1, r1),
+    };
+    if !(close_tol(wu, u2, tol) && close_tol(wr[0], r2[0], tol) && close_tol(wr[1], r2[1], tol)) {
+        ctx.fail_prop(case, format!("evaluation under {}: expected util {:e} regrets {:?}, got util {:e} regrets {:?}", what, wu, wr, u2, r2));
+    }
+    // deterministic solve
+    let o1 = run_lib(&g1, &cfg);
+    let o2 = run_lib(&g2, &cfg);
+    match (o1, o2) {
+        (Outcome::Ok(a), Outcome::Ok(b)) => {
+            let bn = back(&b.named);
+            let an = if what == "rename" { [rename_named(&a.named[0], mi, ma), rename_named(&a.named[1], mi, ma)] } else { a.named.clone() };
+            let d = named_diff(&an[0], &bn[0]).max(named_diff(&an[1], &bn[1]));
+            let wb = match what {
+                "scale" => [a.bounds[0] * c, a.bounds[1] * c],
+                "swap" => [a.bounds[1], a.bounds[0]],
+                _ => a.bounds,
+            };
+            if !(d <= 1e-8) || !bounds_close(&wb, &b.bounds, 1e-9 * sc) {
+                let mut c1 = cfg.clone();
+                c1.threads = 1;
+                let margin = model_margin(ctx, &t, &c1).min(model_margin(ctx, &t2, &c1));
+                if margin < ILL {
+                    ctx.skipped_illcond += 1;
+                    ctx.stat("ill_conditioned_skipped");
+                } else {
+                    ctx.fail_prop(case, format!("solve under {}: strategies differ by {:e}, bounds expected {:?} got {:?} (margin {:e})", what, d, wb, b.bounds, margin));
+                }
+            } else {
+                ctx.stat("solutions_agree");
+            }
+        }
+        (a, b) => ctx.fail_prop(case, format!("solve outcome differs under {}: {:?} vs {:?}", what, a, b)),
+    }
+    ctx.stat(&format!("transformation_{}", what));
+    ctx.count(mix64(t.hash() ^ mix64(t2.hash()) ^ prof_hash(&prof)), t.size() >= 3);
+}
+
+pub fn c12(ctx: &mut Ctx) -> String {
+    let n = if ctx.thorough { 8000 } else { 700 };
+    let kinds = ["rescale_chance", "degenerate", "rename", "scale", "shift", "swap"];
+    for i in 0..n {
+        if ctx.out_of_time() {
+            break;
+        }
+        let (t, fam) = small_game(ctx, i, 400);
+        ctx.stat(&format!("family_{}", fam));
+        let what = kinds[(i % 6) as usize];
+        let c = match what {
+            "scale" => *ctx.rng.pick(&[0.5, 2.0, 8.0, 3.0, 0.1, 1e-3, 1e3]),
+            "shift" => *ctx.rng.pick(&[1.0, -4.0, 0.5, 100.0, 0.3]),
+            _ => *ctx.rng.pick(&[0.25, 2.0, 8.0]),
+        };
+        // scale invariance is documented for the limiting soft-max weights only (presets, default)
+        let params = if what == "scale" {
+            Params::presets()[ctx.rng.below(5) as usize].1
+        } else {
+            Params::pick(&mut ctx.rng).1
+        };
+        let kind = pick_prof_kind(&mut ctx.rng);
+        let prof = gen_profile(&mut ctx.rng, &t, kind);
+        let cfg = Cfg { method: "F".into(), params, iters: ctx.rng.range(0, 30), thr: 0.0, threads: *ctx.rng.pick(&[1usize, 1, 1, 2]), target: None, seed: 0 };
+        let case = json!({"op": "meta", "tree": t.to_json(), "what": what, "c": fjson(c), "c_shown": c, "cfg": cfg.json(), "prof": prof_json(&prof), "rseed": ctx.rng.next() >> 12});
+        if i < 3 {
+            ctx.sample(json!({"family": fam, "nodes": t.size(), "what": what, "c": c, "cfg": cfg.json(), "tree_line": t.to_line()}));
+        }
+        case_meta(ctx, &case);
+    }
+    "metamorphic pairs on the implementation: games x {rescale chance weights by positive constants, insert single-outcome chance and single-action decision nodes, injective renaming of infosets / actions / chance infosets, payoff scale c > 0 (presets), payoff shift, player swap with negated payoffs} x profiles (evaluation) x Full solves with budgets 0..30 (strategies mapped back, bounds scaled / swapped)".to_string()
+}
